@@ -129,7 +129,10 @@ def gen_dtls():
     need(r"if ctx\.incomplete_msg_seq != msg\.message_seq \|\| msg\.fragment_offset == 0 \{", p, "fragment buffer reset rule")
     need(r"ctx\.incomplete_handshake\.extend_from_slice\(&msg\.body\[\.\.\]\);", p, "fragment append (offset ignored)")
     need(r"if ctx\.incomplete_handshake\.len\(\) < msg\.total_length as usize \{", p, "fragment completion test")
-    need(r"ctx\.recv_message_seq \+= 1;", p, "recv_message_seq increment")
+    need(r"ctx\.recv_message_seq = ctx\.recv_message_seq\.wrapping_add\(1\);", p, "recv_message_seq increment (wrapping)")
+    if rs2v.find_struct_fields(src, "HandshakeContext").get("recv_message_seq") != "u16":
+        raise Untranslatable("HandshakeContext.recv_message_seq is not u16")
+    m.raw("Definition RECV_SEQ_MODULUS : Z := 65536.", "recv_message_seq is a wrapping u16", MOD)
     # 1 = the reassembly buffer appends in arrival order and never looks at fragment_offset except `== 0`
     off_uses = len(re.findall(r"fragment_offset", p))
     m.raw("Definition frag_offset_uses : Z := %d." % off_uses, "process_handshake_payload uses of fragment_offset", MOD)
@@ -250,7 +253,8 @@ def gen_dtls():
     # ---------------------------------------------------------------- record loop (epoch-0 rule)
     _, _, b_in = rs2v.find_fn(src, "handle_incoming_packet", "DtlsInner")
     bi = norm(b_in)
-    need(r"if record\.epoch == 0 && ctx\.session_keys\.is_some\(\) \{ let handshaking = matches!\(\*self\.state\.lock\(\), DtlsState::Handshaking\); "
+    need(r"if record\.epoch == 0 && \(record\.content_type == ContentType::ApplicationData \|\| ctx\.session_keys\.is_some\(\)\) \{ "
+         r"let handshaking = matches!\(\*self\.state\.lock\(\), DtlsState::Handshaking\); "
          r"if !handshaking \|\| matches!\( record\.content_type, ContentType::ApplicationData \| ContentType::Alert \) \{ continue; \} \}",
          bi, "epoch-0 discard rule")
     m.raw("Definition epoch0_discard_rule : bool := true.", "handle_incoming_packet epoch-0 discard rule", MOD)
